@@ -219,7 +219,17 @@ def r35b_specside(repo, sink):
 
 
 # ========================================================================== R42
-def r42_forwarders(repo, sink):
+def r42a_fresh_copy(repo, sink):
+    """Only the aliasing obligation of R42 (a re-published stored array aborts a valid run): belongs to C03."""
+    r42_forwarders(repo, sink, parts=("aliasing",))
+
+
+def r42u_quantity(repo, sink):
+    """Only the units obligations of R42 (what is published is the pulled quantity, not bare numbers): C08 / C17."""
+    r42_forwarders(repo, sink, parts=("units",))
+
+
+def r42_forwarders(repo, sink, parts=("aliasing", "units")):
     """Components that hand pulled data on to their own output forward the pulled *quantity* itself (values with their units):
     the output converts from the data's units to its own; a bare array is only labelled.  Decided by abstract runs of the real
     _update / _connect bodies of the in-repo forwarding component(s) against recording slot stand-ins."""
@@ -302,12 +312,20 @@ def r42_forwarders(repo, sink):
         elif it.pushes[0][2] != 2:
             why = f"the pulled data for time 2 is published for time {it.pushes[0][2]!r}"
         if kind == "aliasing":
-            sink.bad("R42", "republishes-pulled-array:TimeTrigger._update", up, why)
+            if "aliasing" in parts:
+                sink.bad("R42", "republishes-pulled-array:TimeTrigger._update", up, why)
+        elif "units" not in parts:
+            if "aliasing" in parts:
+                sink.ok("R42", "republishes-pulled-array:TimeTrigger._update", up, "the update does not publish the very object it pulled")
         else:
+            if "aliasing" in parts:
+                sink.ok("R42", "republishes-pulled-array:TimeTrigger._update", up, "the update does not publish the very object it pulled")
             sink.check(why is None, "R42", "forwards-quantity:TimeTrigger._update", up,
                        ok="pulls at the new time and publishes a copy of the pulled quantity (values with units) for that time", bad=why or "")
     except (Raised, Undecided, AnalysisError) as exc:
         sink.unknown("R42", "forwards-quantity:TimeTrigger._update", up, f"outside vocabulary: {exc}")
+    if "units" not in parts:
+        return
     cn = repo.resolve(c, "_connect", "method")
     try:
         it = _F(repo)
